@@ -913,7 +913,12 @@ impl<'a, 'b> InternalDelphiLogicalLineParser<'a, 'b> {
                     } else if self.get_current_token_type() == Some(TT::Op(OK::LParen)) {
                         self.parse_parens(); // Parent types
                     }
-                    match self.get_current_token_type() {
+                    // A comment on its own line may stand between `class` and what follows it.
+                    let next_real_token_type = match self.get_current_token_type() {
+                        Some(TT::Comment(_)) => self.get_token_type::<1>(),
+                        token_type => token_type,
+                    };
+                    match next_real_token_type {
                         Some(TT::Keyword(KK::Of)) => {
                             // class of ... - continue parsing statement
                             self.next_token();
